@@ -196,5 +196,147 @@ theorem urParse_upper (s : Text) : urParse (s.map upperAscii) = urParse s := by
     | nil => rfl
     | cons c cs ih => simp only [List.map_cons, lower_upper, ih]
 
+/-! ### the UR reader accepts nothing but (a letter-case variant of) the canonical string -/
+
+theorem findPair_sound : ∀ (l : List (Nat × Nat)) (x y i j : Nat), findPair l x y i = some j →
+    i ≤ j ∧ l[j - i]? = some (x, y)
+  | [], _, _, _, _, h => by simp [findPair] at h
+  | (p, q) :: rest, x, y, i, j, h => by
+    simp only [findPair] at h
+    split at h
+    · rename_i hc
+      simp only [Bool.and_eq_true, beq_iff_eq] at hc
+      injection h with h
+      subst h
+      simp [hc.1, hc.2]
+    · obtain ⟨h1, h2⟩ := findPair_sound rest x y (i + 1) j h
+      refine ⟨by omega, ?_⟩
+      have : j - i = (j - (i + 1)) + 1 := by omega
+      rw [this, List.getElem?_cons_succ]
+      exact h2
+
+theorem minimalOf_of_byteOfPair (x y : Nat) (b : UInt8) (h : byteOfPair x y = some b) : minimalOf b = (x, y) := by
+  simp only [byteOfPair, Option.map_eq_some_iff] at h
+  obtain ⟨j, hj, rfl⟩ := h
+  obtain ⟨_, h2⟩ := findPair_sound minimals x y 0 j hj
+  simp only [Nat.sub_zero] at h2
+  have hlt : j < 256 := by
+    have := List.getElem?_eq_some_iff.mp h2
+    obtain ⟨hl, _⟩ := this
+    rw [minimals_length] at hl; exact hl
+  have hto : (UInt8.ofNat j).toNat = j := by simp [Nat.mod_eq_of_lt hlt]
+  simp only [minimalOf]
+  have := List.getElem?_eq_some_iff.mp h2
+  obtain ⟨hl, he⟩ := this
+  simp only [hto]
+  exact he
+
+theorem encodeLetters_of_decodeLetters : ∀ (n : Nat) (t : Text) (bs : Bytes), t.length ≤ n →
+    decodeLetters t = some bs → encodeLetters bs = t
+  | _, [], bs, _, h => by simp [decodeLetters] at h; subst h; rfl
+  | _, [_], _, _, h => by simp [decodeLetters] at h
+  | 0, _ :: _ :: _, _, hl, _ => by simp at hl
+  | n + 1, x :: y :: rest, bs, hl, h => by
+    simp only [decodeLetters] at h
+    cases hb : byteOfPair x y with
+    | none => simp [hb] at h
+    | some b =>
+      cases hr : decodeLetters rest with
+      | none => simp [hb, hr] at h
+      | some r =>
+        simp only [hb, hr, Option.some.injEq] at h
+        subst h
+        have ih := encodeLetters_of_decodeLetters n rest r (by simp at hl; omega) hr
+        have hm := minimalOf_of_byteOfPair x y b hb
+        simp only [encodeLetters, hm, ih]
+
+theorem stripChecksum_sound (data p : Bytes) (h : stripChecksum data = some p) :
+    data = p ++ beBytes 4 (crc32 p) := by
+  unfold stripChecksum at h
+  split at h
+  · simp at h
+  · simp only at h
+    split at h
+    · rename_i hc
+      injection h with h
+      have he : beBytes 4 (crc32 (List.take (data.length - 4) data)) = List.drop (data.length - 4) data := by
+        simpa using hc
+      rw [← h, he, List.take_append_drop]
+    · simp at h
+
+theorem bytewordsDecode_sound (t : Text) (p : Bytes) (h : bytewordsDecode t = some p) : bytewordsMinimal p = t := by
+  unfold bytewordsDecode at h
+  cases hd : decodeLetters t with
+  | none => simp [hd] at h
+  | some data =>
+    simp only [hd] at h
+    have h1 := stripChecksum_sound data p h
+    have h2 := encodeLetters_of_decodeLetters t.length t data (Nat.le_refl _) hd
+    simp only [bytewordsMinimal, ← h1, h2]
+
+theorem stripPrefix_sound : ∀ (p s r : Text), stripPrefix p s = some r → s = p ++ r
+  | [], s, r, h => by cases s <;> simp [stripPrefix] at h <;> simp [h]
+  | _ :: _, [], _, h => by simp [stripPrefix] at h
+  | a :: as, c :: cs, r, h => by
+    simp only [stripPrefix] at h
+    split at h
+    · rename_i hc
+      have := stripPrefix_sound as cs r h
+      simp only [beq_iff_eq] at hc
+      simp [hc, this]
+    · simp at h
+
+theorem splitOnce_sound : ∀ (s a b : Text), splitOnce s = some (a, b) → s = a ++ SLASH :: b
+  | [], _, _, h => by simp [splitOnce] at h
+  | c :: rest, a, b, h => by
+    simp only [splitOnce] at h
+    split at h
+    · rename_i hc
+      simp only [beq_iff_eq] at hc
+      injection h with h
+      injection h with h1 h2
+      subst h1; subst h2; simp [hc]
+    · cases hr : splitOnce rest with
+      | none => simp [hr] at h
+      | some ab =>
+        obtain ⟨a', b'⟩ := ab
+        simp only [hr, Option.some.injEq, Prod.mk.injEq] at h
+        obtain ⟨h1, h2⟩ := h
+        subst h1; subst h2
+        have := splitOnce_sound rest a' b' hr
+        simp [this]
+
+/-- **only the canonical string is read**: whatever `from_ur_string` accepts is, after lower-casing, exactly the
+string `UR::string` writes for the type and bytes it was read as -/
+theorem urString_of_urParse (s ty : Text) (data : Bytes) (h : urParse s = some (ty, data)) :
+    s.map lowerAscii = urString ty data := by
+  unfold urParse at h
+  split at h
+  · simp at h
+  · simp only at h
+    cases hp : stripPrefix urPrefix (List.map lowerAscii s) with
+    | none => simp [hp] at h
+    | some rest =>
+      simp only [hp] at h
+      cases hs : splitOnce rest with
+      | none => simp [hs] at h
+      | some tb =>
+        obtain ⟨t, body⟩ := tb
+        simp only [hs] at h
+        split at h
+        · simp at h
+        · split at h
+          · simp at h
+          · cases hb : bytewordsDecode body with
+            | none => simp [hb] at h
+            | some d =>
+              simp only [hb, Option.some.injEq, Prod.mk.injEq] at h
+              obtain ⟨h1, h2⟩ := h
+              subst h1; subst h2
+              have e1 := stripPrefix_sound _ _ _ hp
+              have e2 := splitOnce_sound _ _ _ hs
+              have e3 := bytewordsDecode_sound _ _ hb
+              simp only [urString, e1, e2, e3, List.append_assoc, List.singleton_append]
+
 end Ur
 end EnvVerif
